@@ -115,6 +115,9 @@ pub fn run_gt(a: &Args, out: &mut Out) {
         let h = if k % 5 == 0 {
             let c = g.pow(frob_scalar([1u32, 2, 3, 4, 6, 4, 8][(k / 5 % 7) as usize]));
             if k % 10 == 0 { c } else { c.inverse().unwrap() }
+        } else if k % 7 == 3 {
+            // equal operands (the same value computed twice), the inverse, g itself
+            match rng.gen_range(0..3) { 0 => g, 1 => g.inverse().unwrap(), _ => Gt::one() * g }
         } else { h };
         let (sg, sh) = (g.to_slice(), h.to_slice());
         out.call("gt.mul", json!({"a": b(&sg), "b": b(&sh)}), || outs! {"out" => b(&(g * h).to_slice())});
@@ -194,6 +197,49 @@ pub fn run_pairing(a: &Args, out: &mut Out) {
                 if kb.is_zero() { continue; }
                 let q = G2::one() * kb;
                 let v = ENTRY[done % 3];
+                out.call("pair", json!({"v": v, "p": p.jac(), "q": q.jac(), "ka": b(&[0u8; 32]), "kb": b(&kb.to_slice()), "full": true, "nodl": true}), || {
+                    outs! {"out" => b(&pair_by(v, p, q).to_slice())}
+                });
+            }
+        }
+    }
+    if focus == "vector" {
+        // G1 points chosen so that the FIRST step of the Miller loop multiplies into a Montgomery-boundary value: with T = Q affine the
+        // tangent coefficient is 3 x_Q^2 x_P (halved in G2::miller_loop, times -1 in the prepared loop); x_P = v / (3 Re(x_Q^2)) or
+        // v / (3 Im(x_Q^2)) for a pool value v (limb patterns 0, 1, 2^63, 2^64-1, q_i, q_i +- 1), when that x carries a point
+        let poolq = load_pool(&a.pool, "Fq");
+        let three = Fq::one() + Fq::one() + Fq::one();
+        let budget = if a.tier == "thorough" { 400 } else { 64 };
+        // stratified by the LOW Montgomery limb of v (all ones / zero / one / anything else): carry and borrow chains start there
+        let mut v33 = [0u8; 33];
+        v33[0] = 1;
+        let rr = Fq::from_slice(&v33).unwrap();
+        let mut buckets: Vec<Vec<Fq>> = vec![Vec::new(), Vec::new(), Vec::new(), Vec::new()];
+        for vb in poolq.vals.iter() {
+            let v = Fq::from_slice(vb).unwrap();
+            let m = (v * rr).to_slice();
+            let low = &m[24..32];
+            let k = if low == [0xffu8; 8] { 0 } else if low == [0u8; 8] { 1 } else if low == [0, 0, 0, 0, 0, 0, 0, 1] { 2 } else { 3 };
+            buckets[k].push(v);
+        }
+        buckets.retain(|x| !x.is_empty());
+        let (mut done, mut tries) = (0usize, 0usize);
+        while done < budget && tries < 40 * budget && !buckets.is_empty() {
+            tries += 1;
+            let bk = &buckets[rng.gen_range(0..buckets.len())];
+            let v = bk[rng.gen_range(0..bk.len())];
+            let kb = pick_scalar(&mut rng, &pool);
+            if kb.is_zero() || v.is_zero() { continue; }
+            let mut q = G2::one() * kb;
+            q.normalize();
+            let x2 = q.x() * q.x();
+            let d = three * (if tries % 2 == 0 { x2.real() } else { x2.imaginary() });
+            let xp = match d.inverse() { Some(di) => v * di, None => continue };
+            let mut enc = vec![2u8 + (tries % 2) as u8];
+            enc.extend_from_slice(&xp.to_slice());
+            if let Ok(p) = G1::from_compressed(&enc) {
+                done += 1;
+                let v = ["pairing", "pairing", "fast", "pairing", "prepared", "pairing"][done % 6];
                 out.call("pair", json!({"v": v, "p": p.jac(), "q": q.jac(), "ka": b(&[0u8; 32]), "kb": b(&kb.to_slice()), "full": true, "nodl": true}), || {
                     outs! {"out" => b(&pair_by(v, p, q).to_slice())}
                 });
